@@ -120,3 +120,64 @@ def items(tier, with_models=False):
             for v in bad_literals(t):
                 yield pack('default/%s%s|%s=%r' % (t.kind, '@alias' if via_alias else '', render.texpr(t), v), False,
                            'default-fits-type', default_model(t, v, via_alias))
+
+
+def fixed_items():
+    """Hand-written specs whose verdict follows from a single rule of the language reference (text, not models: the
+    construction machine cannot build them because they are either invalid or need more definitions than its depth allows).
+    Yields (label, expect_valid, rule, specs)."""
+    def ring(n, used):
+        names = ['c%d' % i for i in range(n)]
+        out = []
+        for i, nm in enumerate(names):
+            nxt = names[(i + 1) % n]
+            body = 'struct X%d\n    f %s.X%d?\n' % (i, nxt, (i + 1) % n) if used else 'struct X%d\n    f Int32\n' % i
+            out.append(('%s.stone' % nm, 'namespace %s\n\nimport %s\n\n%s' % (nm, nxt, body)))
+        return out
+    for n in (2, 3, 4):
+        for used in (True, False):
+            yield ('import-cycle|length %d%s' % (n, '' if used else ' (imports unused)'), False, 'import-acyclic', ring(n, used))
+    # a chain of imports is fine
+    yield ('import-chain|length 3', True, None, [('c0.stone', 'namespace c0\n\nimport c1\n\nstruct X0\n    f c1.X1\n'), ('c1.stone', 'namespace c1\n\nimport c2\n\nstruct X1\n    f c2.X2\n'),
+                                                 ('c2.stone', 'namespace c2\n\nstruct X2\n    f Int32\n')])
+    # aliases: a cycle that passes only through nullables (or nothing) denotes no type; through a list or map it is a recursive type
+    for lab, text, ok in (('alias-self', 'alias Aa = Aa\n', False), ('alias-cycle-2', 'alias Aa = Bb\nalias Bb = Aa\n', False), ('alias-cycle-3', 'alias Aa = Bb\nalias Bb = Cc\nalias Cc = Aa\n', False),
+                          ('alias-cycle-through-nullable', 'alias Aa = Bb?\nalias Bb = Aa\n', False), ('alias-self-nullable', 'alias Aa = Aa?\n', False),
+                          ('alias-recursive-list', 'alias Aa = List(Aa)\nstruct S\n    f Aa\n', True), ('alias-recursive-map-2', 'alias Aa = Map(String, Bb)\nalias Bb = Aa?\nstruct S\n    f Bb\n', True)):
+        yield ('alias-shape|' + lab, ok, None if ok else 'alias-acyclic', [('m.stone', 'namespace mx\n\n' + text)])
+    # examples
+    pre = 'namespace mx\n\nstruct T\n    x Int32\n\n    example default\n        x = 1\n\n'
+    for lab, text, ok, rule in (
+            ('example-ref-alias-nullable', 'alias AT = T?\n\nstruct S\n    t AT\n\n    example default\n        t = default\n', True, None),
+            ('example-ref-alias-chain', 'alias AT = T\n\nalias AU = AT\n\nstruct S\n    t AU\n\n    example default\n        t = default\n', True, None),
+            ('example-map-not-a-map', 'struct S\n    m Map(String, Int32)\n\n    example default\n        m = 5\n', False, 'example-fits-type'),
+            ('example-map-list', 'struct S\n    m Map(String, Int32)\n\n    example default\n        m = [1]\n', False, 'example-fits-type'),
+            ('example-map-key-too-short', 'struct S\n    m Map(String(min_length=2), Int32)\n\n    example default\n        m = {"a": 1}\n', False, 'example-fits-type'),
+            ('example-map-key-pattern', 'struct S\n    m Map(String(pattern="[a-c]+"), Int32)\n\n    example default\n        m = {"zz": 1}\n', False, 'example-fits-type'),
+            ('example-map-key-ok', 'struct S\n    m Map(String(min_length=2), Int32)\n\n    example default\n        m = {"ab": 1}\n', True, None),
+            ('example-map-nested-key', 'struct S\n    m Map(String, Map(String(max_length=1), Int32))\n\n    example default\n        m = {"k": {"toolong": 1}}\n', False, 'example-fits-type'),
+            ('example-map-key-via-alias', 'alias Am = Map(String(min_length=2), Int32)\n\nstruct S\n    m Am\n\n    example default\n        m = {"a": 1}\n', False, 'example-fits-type'),
+            ('example-map-key-in-union', 'union U\n    m Map(String(min_length=2), Int32)\n\n    example default\n        m = {"a": 1}\n', False, 'example-fits-type'),
+            ('example-self-reference', 'struct S\n    t S?\n\n    example default\n        t = default\n', False, 'example-acyclic')):
+        yield ('example|' + lab, ok, rule, [('m.stone', pre + text)])
+    # doc reference values: every float literal the lexer accepts as a default is a value
+    for v, ok in (('1e5', True), ('2e10', True), ('2.5e3', True), ('10.e2', True), ('-1.5e-3', True), ('1e', False), ('e5', False), ('1.5.2', False), ('--1', False), ('\\"a\\"', True), ('\\"a', False),
+                  ('null', True), ('true', True), ('True', False), ('0', True), ('-0', True), ('.5', False)):
+        yield ('docref-val|%s' % v, ok, None if ok else 'docref-val', [('m.stone', 'namespace mx\n\nstruct S\n    "A value :val:`%s`."\n    f Int32\n' % v)])
+    # route attribute schema
+    cfg = 'namespace stone_cfg\n\nimport mx\n\n'
+    mx = 'namespace mx\n\nstruct Ms\n    a Int32\n\nunion Mu\n    mv\n    mw Int32\n\nalias Al = List(Int32)\n\nroute r(Void, Void, Void)\n'
+    for lab, body, attrs, ok, rule in (
+            ('attr-list-type', 'struct Route\n    k List(String)?\n', '', False, 'attr-type'), ('attr-map-type', 'struct Route\n    k Map(String, Int32)?\n', '', False, 'attr-type'),
+            ('attr-struct-type-set', 'struct Route\n    k mx.Ms?\n', '    attrs\n        k = 1\n', False, 'attr-type'), ('attr-alias-of-list-set', 'struct Route\n    k mx.Al?\n', '    attrs\n        k = 1\n', False, 'attr-type'),
+            ('schema-is-union', 'union Route\n    a\n', '', False, 'cfg-only-route-struct'), ('attr-union-tag', 'struct Route\n    k mx.Mu = mv\n', '    attrs\n        k = mv\n', True, None),
+            ('attr-union-not-a-tag', 'struct Route\n    k mx.Mu = mv\n', '    attrs\n        k = 3\n', False, 'attr-fits-type')):
+        if lab in ('attr-list-type', 'attr-map-type'):
+            continue        # whether an attribute of list / map type may be declared (it can never be given a value) is left open
+        yield ('route-schema|' + lab, ok, rule, [('cfg.stone', cfg + body), ('m.stone', mx + attrs)])
+    # numbers
+    big = '1' + '0' * 400
+    for lab, text, ok, rule in (('float-default-huge-int', 'struct S\n    f Float64 = %s\n' % big, False, 'default-fits-type'), ('int-default-huge', 'struct S\n    f Int64 = %s\n' % big, False, 'default-fits-type'),
+                                ('float32-default-in-range', 'struct S\n    f Float32 = 1e30\n', True, None), ('pattern-repeat-overflow', 'struct S\n    f String(pattern="a{99999999999}")\n', False, 'pattern-compiles'),
+                                ('pattern-unbalanced', 'struct S\n    f String(pattern="(")\n', False, 'pattern-compiles')):
+        yield ('numbers|' + lab, ok, rule, [('m.stone', 'namespace mx\n\n' + text)])
